@@ -51,7 +51,7 @@ TSubmit ==
   /\ Submit(Ev.k) /\ SamePend
 
 TXfer ==
-  /\ Is("Xfer") /\ Ev.from \in Ports /\ out[Ev.from] # <<>>
+  /\ Is("Xfer") /\ Ev.from \in DOMAIN out /\ out[Ev.from] # <<>>
   /\ Head(out[Ev.from]).dst = Ev.to /\ Head(out[Ev.from]).t = Ev.t
   /\ Xfer(Ev.from) /\ SamePend
 
@@ -74,27 +74,27 @@ TAllFinished ==
 
 \* --------------------------------------------------------------------- GPU
 TRecvK ==
-  /\ Is("RecvK") /\ Ev.p \in Ports /\ Ev.p = GU(Ev.p.d) /\ HasIn(Ev.p, "K")
+  /\ Is("RecvK") /\ Ev.p \in DOMAIN out /\ Ev.p = GU(Ev.p.d) /\ HasIn(Ev.p, "K")
   /\ tr[Head(inb[Ev.p]).a] = Ev.pl
   /\ GpuRecvKernelP(Ev.p.d, TRUE)
   /\ pendK' = IF Ev.pl = <<>> THEN pendK \cup {Ev.p.d} ELSE pendK
   /\ UNCHANGED <<pendB, pendW>>
 
 TSendB ==
-  /\ Is("SendB") /\ Ev.p \in Ports /\ Ev.p = GD(Ev.p.d) /\ Ev.dst = SU(Ev.p.d, Ev.dst.s)
+  /\ Is("SendB") /\ Ev.p \in DOMAIN out /\ Ev.p = GD(Ev.p.d) /\ Ev.dst = SU(Ev.p.d, Ev.dst.s)
   /\ LET d == Ev.p.d
          S == {i \in DOMAIN gpu[d].undisp : tr[gpu[d].undisp[i][1]][gpu[d].undisp[i][2]] = Ev.pl} IN
        S # {} /\ GpuDispatch(d, MinIdx(S), Ev.dst.s)
   /\ SamePend
 
 TRecvBF ==
-  /\ Is("RecvBF") /\ Ev.p \in Ports /\ Ev.p = GD(Ev.p.d) /\ HasIn(Ev.p, "BF") /\ Ev.fin
+  /\ Is("RecvBF") /\ Ev.p \in DOMAIN out /\ Ev.p = GD(Ev.p.d) /\ HasIn(Ev.p, "BF") /\ Ev.fin
   /\ Ev.id = Unit("sm", Ev.p.d, Head(inb[Ev.p]).a, 0)
   /\ GpuRecvBF(Ev.p.d) /\ SamePend
 
 \* reportFinishedKernels; an empty kernel still pending is resolved as the intended design
 TSendKF ==
-  /\ Is("SendKF") /\ Ev.p \in Ports /\ Ev.p = GU(Ev.p.d) /\ Ev.dst = DRV /\ Ev.fin
+  /\ Is("SendKF") /\ Ev.p \in DOMAIN out /\ Ev.p = GU(Ev.p.d) /\ Ev.dst = DRV /\ Ev.fin
   /\ Ev.id = Unit("dev", Ev.p.d, 0, 0)
   /\ LET d == Ev.p.d
          isPend == d \in pendK /\ gpu[d].finished = 0
@@ -107,26 +107,26 @@ TSendKF ==
 
 \* ---------------------------------------------------------------------- SM
 TRecvB ==
-  /\ Is("RecvB") /\ Ev.p \in Ports /\ Ev.p = SU(Ev.p.d, Ev.p.s) /\ HasIn(Ev.p, "B")
+  /\ Is("RecvB") /\ Ev.p \in DOMAIN out /\ Ev.p = SU(Ev.p.d, Ev.p.s) /\ HasIn(Ev.p, "B")
   /\ LET m == Head(inb[Ev.p]) IN tr[m.a][m.b] = Ev.pl
   /\ SmRecvBlockP(Ev.p.d, Ev.p.s, TRUE)
   /\ pendB' = IF Ev.pl = <<>> THEN pendB \cup {<<Ev.p.d, Ev.p.s>>} ELSE pendB
   /\ UNCHANGED <<pendK, pendW>>
 
 TSendW ==
-  /\ Is("SendW") /\ Ev.p \in Ports /\ Ev.p = SD(Ev.p.d, Ev.p.s) /\ Ev.dst = CP(Ev.p.d, Ev.p.s, Ev.dst.c)
+  /\ Is("SendW") /\ Ev.p \in DOMAIN out /\ Ev.p = SD(Ev.p.d, Ev.p.s) /\ Ev.dst = CP(Ev.p.d, Ev.p.s, Ev.dst.c)
   /\ LET x == <<Ev.p.d, Ev.p.s>>
          S == {i \in DOMAIN sm[x].undisp : NI(sm[x].undisp[i][1], sm[x].undisp[i][2], sm[x].undisp[i][3]) = Ev.pl} IN
        S # {} /\ SmDispatch(Ev.p.d, Ev.p.s, MinIdx(S), Ev.dst.c)
   /\ SamePend
 
 TRecvWF ==
-  /\ Is("RecvWF") /\ Ev.p \in Ports /\ Ev.p = SD(Ev.p.d, Ev.p.s) /\ HasIn(Ev.p, "WF") /\ Ev.fin
+  /\ Is("RecvWF") /\ Ev.p \in DOMAIN out /\ Ev.p = SD(Ev.p.d, Ev.p.s) /\ HasIn(Ev.p, "WF") /\ Ev.fin
   /\ Ev.id = Unit("sub", Ev.p.d, Ev.p.s, Head(inb[Ev.p]).a)
   /\ SmRecvWF(Ev.p.d, Ev.p.s) /\ SamePend
 
 TSendBF ==
-  /\ Is("SendBF") /\ Ev.p \in Ports /\ Ev.p = SU(Ev.p.d, Ev.p.s) /\ Ev.dst = GD(Ev.p.d) /\ Ev.fin
+  /\ Is("SendBF") /\ Ev.p \in DOMAIN out /\ Ev.p = SU(Ev.p.d, Ev.p.s) /\ Ev.dst = GD(Ev.p.d) /\ Ev.fin
   /\ Ev.id = Unit("sm", Ev.p.d, Ev.p.s, 0)
   /\ LET x == <<Ev.p.d, Ev.p.s>>
          isPend == x \in pendB /\ sm[x].finished = 0
@@ -139,7 +139,7 @@ TSendBF ==
 
 \* ---------------------------------------------------------------- sub-core
 TRecvW ==
-  /\ Is("RecvW") /\ Ev.p \in Ports /\ Ev.p = CP(Ev.p.d, Ev.p.s, Ev.p.c) /\ HasIn(Ev.p, "W")
+  /\ Is("RecvW") /\ Ev.p \in DOMAIN out /\ Ev.p = CP(Ev.p.d, Ev.p.s, Ev.p.c) /\ HasIn(Ev.p, "W")
   /\ LET m == Head(inb[Ev.p]) IN NI(m.a, m.b, m.c) = Ev.pl
   /\ SubRecvWarpP(Ev.p.d, Ev.p.s, Ev.p.c, TRUE)
   /\ pendW' = IF Ev.pl = 0 THEN pendW \cup {<<Ev.p.d, Ev.p.s, Ev.p.c>>} ELSE pendW
@@ -147,7 +147,7 @@ TRecvW ==
 
 \* the remaining run steps of the warp (SubRun^left) followed by SubReport
 TSendWF ==
-  /\ Is("SendWF") /\ Ev.p \in Ports /\ Ev.p = CP(Ev.p.d, Ev.p.s, Ev.p.c) /\ Ev.dst = SD(Ev.p.d, Ev.p.s) /\ Ev.fin
+  /\ Is("SendWF") /\ Ev.p \in DOMAIN out /\ Ev.p = CP(Ev.p.d, Ev.p.s, Ev.p.c) /\ Ev.dst = SD(Ev.p.d, Ev.p.s) /\ Ev.fin
   /\ Ev.id = Unit("sub", Ev.p.d, Ev.p.s, Ev.p.c)
   /\ LET x == <<Ev.p.d, Ev.p.s, Ev.p.c>>
          n == sub[x].left
